@@ -5,6 +5,7 @@ import (
 	"encoding/json"
 	"fmt"
 	"math/rand/v2"
+	"slices"
 	"strings"
 )
 
@@ -206,7 +207,12 @@ func textAttacks(orig []byte, rng *rand.Rand, lv textLevel, exp string, emit fun
 	}
 	// deep nests
 	for _, pat := range []string{"thresh(1,[", "thresh(255,[", "(", "[", "uc(0,[", "\"", "{", "[{\"a\":"} {
-		for _, d := range lv.nests {
+		ds := lv.nests
+		if pat == "thresh(1,[" && !lv.light && !lv.embedded && slices.Max(ds) < 1000000 {
+			// deep enough to exhaust a goroutine stack if the policy parser recursed without a bound
+			ds = append(append([]int(nil), ds...), 1000000)
+		}
+		for _, d := range ds {
 			if d > 100000 && pat != "thresh(1,[" && pat != "[" {
 				continue
 			}
